@@ -56,6 +56,15 @@ def registry_only_grows(prog, rep, rule="REG-2"):
                 for t in tgts:
                     if isinstance(t, ast.Subscript) and "_handlers" in unparse(t.value):
                         bad = "`%s`" % unparse(node).split("\n")[0][:70]
+                        # `if kind not in R: R[kind] = set()` is setdefault spelled out
+                        if isinstance(node, ast.Assign) and unparse(node.value) == "set()":
+                            from ..astutil import atoms_at as _aa
+                            from ..dataflow import node_of_ast as _noa
+                            g0 = build_cfg(f)
+                            n0 = _noa(g0, node.value)
+                            want = "%s in %s" % (unparse(t.slice), unparse(t.value))
+                            if n0 is not None and any((tx == want and not pol) or (tx == want.replace(" in ", " not in ") and pol) for tx, pol, _ in _aa(g0, n0)):
+                                bad = None
                     if isinstance(t, ast.Attribute) and t.attr == "_handlers":
                         n += 1
                         fresh = isinstance(node, ast.Assign) and isinstance(node.value, ast.Dict) and not node.value.keys
